@@ -17,7 +17,10 @@ use std::cell::RefCell;
 use std::io::{BufRead, BufReader, Write};
 use std::process::{Child, ChildStdin, ChildStdout, Command, Stdio};
 
-pub const STORAGE: &[&str] = &["classic", "xrefstream+objstm", "rc4-encrypted"];
+pub const STORAGE: &[&str] = &["classic", "xrefstream+objstm", "rc4-encrypted", "aes128-encrypted"];
+/// how the category dictionaries of the resources (/Font, /XObject, /Shading, ...) are stored, and whether the form XObject
+/// uses the page's own resources object (a cycle page resources -> form -> same resources)
+pub const SHAPE: &[&str] = &["categories-direct", "categories-indirect", "form-shares-the-resources-object", "categories-indirect+form-shares"];
 pub const RESOURCES: &[&str] = &["inherited-from-tree", "direct-per-page", "indirect-per-page", "one-shared-indirect"];
 /// how the source document is opened and used around the import
 pub const SOURCE_USE: &[&str] = &["uncached", "cached", "cached+streams-read-before-import"];
@@ -25,7 +28,31 @@ pub const EXTRAS: &[&str] = &["acyclic-extras", "cyclic-extra(PieceInfo->object-
 
 /// three-page source document
 pub fn source_objects(resources: usize, extras: usize) -> Vec<(u64, Val)> {
+    source_objects_shaped(resources, extras, 0)
+}
+pub fn source_objects_shaped(resources: usize, extras: usize, shape: usize) -> Vec<(u64, Val)> {
     let mut o = rich_objects();
+    if shape == 1 || shape == 3 {
+        // every category dictionary of the resources object becomes an indirect object of its own (80, 81, ...)
+        let res = o.iter().find(|(n, _)| *n == 5).unwrap().1.clone();
+        if let Val::Dict(entries) = res {
+            let mut new_entries = vec![];
+            let mut next = 80u64;
+            for (k, v) in entries {
+                if matches!(v, Val::Dict(_)) {
+                    o.push((next, v));
+                    new_entries.push((k, Val::Ref(next, 0)));
+                    next += 1;
+                } else {
+                    new_entries.push((k, v));
+                }
+            }
+            o.iter_mut().find(|(n, _)| *n == 5).unwrap().1 = Val::Dict(new_entries);
+        }
+    }
+    if shape == 2 || shape == 3 {
+        o.iter_mut().find(|(n, _)| *n == 17).unwrap().1.set("Resources", Val::r(5));
+    }
     let set = |o: &mut Vec<(u64, Val)>, nr: u64, key: &str, v: Val| {
         o.iter_mut().find(|(n, _)| *n == nr).unwrap().1.set(key, v);
     };
@@ -75,13 +102,16 @@ pub fn source_objects(resources: usize, extras: usize) -> Vec<(u64, Val)> {
 }
 
 pub fn source_bytes(storage: usize, resources: usize, extras: usize) -> (Vec<u8>, Vec<u8>) {
-    let objs = source_objects(resources, extras);
+    source_bytes_shaped(storage, resources, extras, 0)
+}
+pub fn source_bytes_shaped(storage: usize, resources: usize, extras: usize, shape: usize) -> (Vec<u8>, Vec<u8>) {
+    let objs = source_objects_shaped(resources, extras, shape);
     match storage {
         0 => (rich_doc_with(b"", DocOpts::CLASSIC, &objs), vec![]),
         1 => (rich_doc_with(b"", DocOpts::STREAM, &objs), vec![]),
         _ => {
             let id0 = b"0123456789abcdef".to_vec();
-            let sec = Security::new(Variant::R3(16), b"user", b"owner", -4, &id0, true);
+            let sec = Security::new(if storage == 2 { Variant::R3(16) } else { Variant::R4Aes }, b"user", b"owner", -4, &id0, true);
             let mut fb = FileBuilder::new(b"");
             let crypt = |n: u64, g: u16, d: &[u8]| sec.encrypt(n, g, d);
             fb.crypt = Some(&crypt);
@@ -98,93 +128,102 @@ pub fn source_bytes(storage: usize, resources: usize, extras: usize) -> (Vec<u8>
 
 /// structural equality of two values living in two documents (references followed, numbers ignored)
 fn deep_equal(a: &Primitive, ra: &impl Resolve, b: &Primitive, rb: &impl Resolve, seen: &mut Vec<(u64, u64)>, depth: usize) -> std::result::Result<(), String> {
-    if depth == 0 {
-        return Ok(());
+    let mut out = vec![];
+    deep_diffs(a, ra, b, rb, seen, depth, "", &mut out);
+    match out.into_iter().next() {
+        None => Ok(()),
+        Some((path, m)) => Err(format!("{}: {}", path, m)),
+    }
+}
+/// every difference between two values living in two documents: (key path, description). References are followed, object
+/// numbers ignored; the walk goes on after a difference so that one known difference does not hide the others.
+fn deep_diffs(a: &Primitive, ra: &impl Resolve, b: &Primitive, rb: &impl Resolve, seen: &mut Vec<(u64, u64)>, depth: usize, path: &str, out: &mut Vec<(String, String)>) {
+    if depth == 0 || out.len() > 20 {
+        return;
     }
     match (a, b) {
         (Primitive::Reference(x), Primitive::Reference(y)) => {
             if seen.contains(&(x.id, y.id)) {
-                return Ok(());
+                return;
             }
             seen.push((x.id, y.id));
-            let pa = ra.resolve(*x).map_err(|e| format!("source object {} unreadable: {}", x.id, err_variant(&e)))?;
-            let pb = rb.resolve(*y).map_err(|e| format!("copied object {} (of source {}) unreadable: {}", y.id, x.id, err_variant(&e)))?;
-            deep_equal(&pa, ra, &pb, rb, seen, depth - 1).map_err(|m| format!("{} (source object {} vs copy {})", m, x.id, y.id))
+            match (ra.resolve(*x), rb.resolve(*y)) {
+                (Ok(pa), Ok(pb)) => deep_diffs(&pa, ra, &pb, rb, seen, depth - 1, path, out),
+                (Err(e), _) => out.push((path.to_string(), format!("source object {} unreadable: {}", x.id, err_variant(&e)))),
+                (_, Err(e)) => out.push((path.to_string(), format!("copied object {} (of source {}) unreadable: {}", y.id, x.id, err_variant(&e)))),
+            }
         }
-        (Primitive::Reference(x), other) => {
-            let pa = ra.resolve(*x).map_err(|e| format!("source object {} unreadable: {}", x.id, err_variant(&e)))?;
-            deep_equal(&pa, ra, other, rb, seen, depth - 1)
-        }
-        (other, Primitive::Reference(y)) => {
-            let pb = rb.resolve(*y).map_err(|e| format!("copied object {} unreadable: {}", y.id, err_variant(&e)))?;
-            deep_equal(other, ra, &pb, rb, seen, depth - 1)
-        }
+        (Primitive::Reference(x), other) => match ra.resolve(*x) {
+            Ok(pa) => deep_diffs(&pa, ra, other, rb, seen, depth - 1, path, out),
+            Err(e) => out.push((path.to_string(), format!("source object {} unreadable: {}", x.id, err_variant(&e)))),
+        },
+        (other, Primitive::Reference(y)) => match rb.resolve(*y) {
+            Ok(pb) => deep_diffs(other, ra, &pb, rb, seen, depth - 1, path, out),
+            Err(e) => out.push((path.to_string(), format!("copied object {} unreadable: {}", y.id, err_variant(&e)))),
+        },
         (Primitive::Dictionary(x), Primitive::Dictionary(y)) => {
             for (k, v) in x.iter() {
                 if k.as_str() == "Parent" || k.as_str() == "P" || k.as_str() == "ProcSet" {
                     continue; // back-pointers into the page tree are re-created, not copied; /ProcSet is obsolete
                 }
+                let sub = format!("{}/{}", path, k.as_str());
                 match y.get(k.as_str()) {
-                    Some(w) => deep_equal(v, ra, w, rb, seen, depth - 1).map_err(|m| format!("/{}: {}", k.as_str(), m))?,
+                    Some(w) => deep_diffs(v, ra, w, rb, seen, depth - 1, &sub, out),
                     None => {
                         if !matches!(v, Primitive::Null) {
-                            return Err(format!("entry /{} missing in the copy", k.as_str()));
+                            out.push((sub, "entry missing in the copy".into()));
                         }
                     }
                 }
             }
-            Ok(())
         }
         (Primitive::Stream(x), Primitive::Stream(y)) => {
-            let dx = Primitive::Dictionary(x.info.clone());
             let mut iy = y.info.clone();
             let mut ix = x.info.clone();
             ix.remove("Length");
             iy.remove("Length");
-            let _ = dx;
-            deep_equal(&Primitive::Dictionary(ix), ra, &Primitive::Dictionary(iy), rb, seen, depth - 1)?;
+            deep_diffs(&Primitive::Dictionary(ix), ra, &Primitive::Dictionary(iy), rb, seen, depth - 1, path, out);
             // decoded data must agree (the copy may be stored re-encoded)
             let da = Stream::<()>::from_stream(x.clone(), ra).and_then(|s| s.data(ra));
             let db = Stream::<()>::from_stream(y.clone(), rb).and_then(|s| s.data(rb));
+            let sub = format!("{}(data)", path);
             match (da, db) {
-                (Ok(p), Ok(q)) if p == q => Ok(()),
+                (Ok(p), Ok(q)) if p == q => {}
                 (Ok(p), Ok(q)) => {
                     // content streams (patterns, forms) may be re-serialised: equal operation sequences are equal content
                     let is_content = x.info.get("PatternType").is_some() || x.info.get("Subtype").and_then(|s| s.as_name().ok()) == Some("Form");
                     if is_content {
                         if let (Ok(a), Ok(b)) = (pdf::content::parse_ops(&p, ra), pdf::content::parse_ops(&q, rb)) {
                             if canon_seq(&a) == canon_seq(&b) {
-                                return Ok(());
+                                return;
                             }
                         }
                     }
-                    Err(format!("stream data differs: source {} copy {}", show_bytes(&p), show_bytes(&q)))
+                    out.push((sub, format!("stream data differs: source {} copy {}", show_bytes(&p[..p.len().min(40)]), show_bytes(&q[..q.len().min(40)]))));
                 }
                 (Err(_), Err(_)) => {
                     // undecodable in both (e.g. CCITT): compare raw
                     match (x.raw_data(ra), y.raw_data(rb)) {
-                        (Ok(p), Ok(q)) if p == q => Ok(()),
-                        _ => Err("raw stream data differs".into()),
+                        (Ok(p), Ok(q)) if p == q => {}
+                        _ => out.push((sub, "raw stream data differs".into())),
                     }
                 }
-                (Ok(_), Err(e)) => Err(format!("copied stream data unreadable: {}", err_variant(&e))),
-                (Err(e), Ok(_)) => Err(format!("source stream data unreadable but copy readable: {}", err_variant(&e))),
+                (Ok(_), Err(e)) => out.push((sub, format!("copied stream data unreadable: {}", err_variant(&e)))),
+                (Err(e), Ok(_)) => out.push((sub, format!("source stream data unreadable but copy readable: {}", err_variant(&e)))),
             }
         }
         (Primitive::Array(x), Primitive::Array(y)) => {
             if x.len() != y.len() {
-                return Err(format!("array length {} vs {}", x.len(), y.len()));
+                out.push((path.to_string(), format!("array length {} vs {}", x.len(), y.len())));
+                return;
             }
-            for (p, q) in x.iter().zip(y) {
-                deep_equal(p, ra, q, rb, seen, depth - 1)?;
+            for (i, (p, q)) in x.iter().zip(y).enumerate() {
+                deep_diffs(p, ra, q, rb, seen, depth - 1, &format!("{}[{}]", path, i), out);
             }
-            Ok(())
         }
         (p, q) => {
-            if crate::props::c04::prim_eq(p, q) {
-                Ok(())
-            } else {
-                Err(format!("{} vs {}", show_prim(p), show_prim(q)))
+            if !crate::props::c04::prim_eq(p, q) {
+                out.push((path.to_string(), format!("{} vs {}", show_prim(p), show_prim(q))));
             }
         }
     }
@@ -325,6 +364,8 @@ where
         return Err(vec![("page-count".into(), format!("{} pages imported, {} in the new document", selection.len(), new_file.num_pages()))]);
     }
     let (rs, rn) = (src_file.resolver(), new_file.resolver());
+    // (source object, copy) pairs met while comparing resources: one Importer must copy a source object once
+    let mut seen_all: Vec<(u64, u64)> = vec![];
     for (k, &i) in selection.iter().enumerate() {
         let sp = src_file.get_page(i).map_err(|e| vec![("source-page".to_string(), err_variant(&e))])?;
         let np = new_file.get_page(k as u32).map_err(|e| vec![(format!("new-page-error:{}", err_variant(&e)), format!("page {}", k))])?;
@@ -369,8 +410,11 @@ where
             match nv {
                 None => diffs.push((format!("resource-missing:{}/{}", cat, name), format!("page {}: the operations use /{} {} but the new page's resources do not define it", i, cat, name))),
                 Some(nv) => {
-                    if let Err(m) = deep_equal(&sv, &rs, &nv, &rn, &mut vec![], 12) {
-                        diffs.push((format!("resource-differs:{}/{}", cat, name), format!("page {}: /{} {}: {}", i, cat, name, m)));
+                    let mut ds = vec![];
+                    deep_diffs(&sv, &rs, &nv, &rn, &mut seen_all, 12, "", &mut ds);
+                    for (path, m) in ds {
+                        // (the kind names the place of the difference, so that a recorded finding covers exactly that place)
+                        diffs.push((format!("resource-differs:{}/{}{}", cat, name, path), format!("page {}: /{} {}{}: {}", i, cat, name, path, m)));
                     }
                 }
             }
@@ -385,6 +429,18 @@ where
                 }
                 None => diffs.push(("extra-entry-missing".into(), format!("page {} /{}", i, key.as_str()))),
             }
+        }
+    }
+    {
+        let mut by_src: std::collections::BTreeMap<u64, Vec<u64>> = Default::default();
+        for (a, b) in &seen_all {
+            let e = by_src.entry(*a).or_default();
+            if !e.contains(b) {
+                e.push(*b);
+            }
+        }
+        if let Some((src, copies)) = by_src.iter().find(|(_, c)| c.len() > 1) {
+            diffs.push(("shared-object-copied-twice".into(), format!("source object {} has the copies {:?} in the new document", src, copies)));
         }
     }
     // the source document itself must answer as before the import
@@ -458,7 +514,7 @@ fn case_source(v: &Value) -> (Vec<u8>, Vec<u8>) {
         let pw: &[u8] = if f.starts_with("password_protected") { b"userpassword" } else { b"" };
         (std::fs::read(format!("{}/files/{}", repo_dir(), f)).unwrap_or_default(), pw.to_vec())
     } else {
-        source_bytes(v["storage"].as_u64().unwrap() as usize, v["resources"].as_u64().unwrap() as usize, v["extras"].as_u64().unwrap() as usize)
+        source_bytes_shaped(v["storage"].as_u64().unwrap() as usize, v["resources"].as_u64().unwrap() as usize, v["extras"].as_u64().unwrap() as usize, v["shape"].as_u64().unwrap_or(0) as usize)
     }
 }
 
@@ -562,8 +618,12 @@ pub fn run(tier: Tier, _seed: u64, tally: &mut Tally) -> CheckMeta {
     for storage in 0..STORAGE.len() {
         for resources in 0..RESOURCES.len() {
             for extras in 0..EXTRAS.len() {
-                for sel in selections(3, 3) {
+              for shape in 0..SHAPE.len() {
+                for sel in selections(3, if shape == 0 { 3 } else { 2 }) {
                   for source_use in 0..SOURCE_USE.len() {
+                    if shape != 0 && source_use == 2 {
+                        continue;
+                    }
                     // the cached variants on single pages and pairs; triples uncached only
                     if source_use != 0 && sel.len() > 2 {
                         continue;
@@ -571,6 +631,9 @@ pub fn run(tier: Tier, _seed: u64, tally: &mut Tally) -> CheckMeta {
                     let mut devs = vec![];
                     if source_use != 0 {
                         devs.push(format!("source={}", SOURCE_USE[source_use]));
+                    }
+                    if shape != 0 {
+                        devs.push(format!("shape={}", SHAPE[shape]));
                     }
                     if storage != 0 {
                         devs.push(format!("storage={}", STORAGE[storage]));
@@ -588,9 +651,10 @@ pub fn run(tier: Tier, _seed: u64, tally: &mut Tally) -> CheckMeta {
                     if sel.len() > 1 && sel[0] == sel[1] {
                         devs.push("same-page-twice".into());
                     }
-                    cases.push((json!({"engine": "c20.import", "storage": storage, "resources": resources, "extras": extras, "selection": sel, "source_use": source_use}), devs));
+                    cases.push((json!({"engine": "c20.import", "storage": storage, "resources": resources, "extras": extras, "selection": sel, "source_use": source_use, "shape": shape}), devs));
                   }
                 }
+              }
             }
         }
     }
@@ -643,7 +707,7 @@ pub fn run(tier: Tier, _seed: u64, tally: &mut Tally) -> CheckMeta {
     CheckMeta {
         prop: "C20",
         level: "model_checking",
-        rule: format!("generated three-page source documents: full product of storage {:?} x resource placement {:?} x extra page entries {:?} x every ordered selection of 1..3 pages (incl. the same page twice) x source use {:?} (cached variants for selections of 1-2 pages), plus the corpus files x 4 selections x source use: {} import cases, each executed in a worker process through one Importer into one PdfBuilder, built, reloaded. Oracle: boxes, rotation, operation sequence (C08 comparator); for every resource name the operations use (fonts, XObjects, ext-gstates, colour spaces, patterns, shadings, properties) deep equality of the resource between source and new document (dictionaries entry by entry, stream data by decoded bytes); extra page entries deep-equal; the independent structural reader finds no reference to an undefined object; shared source objects exist once; with a cached source every stream of the source must decode after the import to what a fresh uncached open gives; an import error is allowed, a panic / stack overflow / abort / hang is not.", STORAGE, RESOURCES, EXTRAS, SOURCE_USE, n_cases),
+        rule: format!("generated three-page source documents: full product of storage {:?} x resource placement {:?} x extra page entries {:?} x resource shape {:?} (selections of 1-2 pages for the non-default shapes) x every ordered selection of 1..3 pages (incl. the same page twice) x source use {:?} (cached variants for selections of 1-2 pages), plus the corpus files x 4 selections x source use: {} import cases, each executed in a worker process through one Importer into one PdfBuilder, built, reloaded. Oracle: boxes, rotation, operation sequence (C08 comparator); for every resource name the operations use (fonts, XObjects, ext-gstates, colour spaces, patterns, shadings, properties) deep equality of the resource between source and new document (dictionaries entry by entry, stream data by decoded bytes); extra page entries deep-equal; the independent structural reader finds no reference to an undefined object; shared source objects exist once; with a cached source every stream of the source must decode after the import to what a fresh uncached open gives; an import error is allowed, a panic / stack overflow / abort / hang is not.", STORAGE, RESOURCES, EXTRAS, SHAPE, SOURCE_USE, n_cases),
         assumptions: vec!["annotations are not part of what PageBuilder::clone_page copies and are not compared".into()],
         exhaustive: true,
         bounds: json!({"pages_per_import": 3}),
